@@ -1,12 +1,19 @@
 import Lean.Data.Json
 import PynguinModel.Model.Types
+import PynguinModel.Model.Generators
 /-! Line-protocol driver for C25 (and the type queries of C26): one JSON case per line in, one JSON line out.
 
 Case: `{"classes":[[cls,[base,…]],…], "extra":[[sup,sub],…], "tower":[bool,int,float,complex]|null,
         "generics":[[cls,k],…], "anyD":n, "pool":[ty,…], "qs":[[op,[i,j]],…]}`
 Types: `"A"` Any, `"N"` None, `{"i":[cls,[ty,…]]}`, `{"t":[unknown_size,[ty,…]]}`, `{"u":[ty,…]}`.
 Ops (i, j index the pool, or are class ids for `subclass`/`spl`):
-`sub maybe cov dist subclass spl wf fixup`. -/
+`sub maybe cov dist subclass spl wf fixup`.
+
+Optional `"hist":{"nodes":[cls,…],"ops":[[op,[i,j]],…]}`: a HISTORY on one type system that starts with the registered
+classes `nodes`, no edges and empty caches — `edge` (`add_subclass_edge(super=i, sub=j)`) interleaved with the memoised
+queries `sub maybe dist` (pool indices), `subclass` (class ids), `subclasses superclasses` (class id `i`); run through
+the memo model `Generators.run` (repaired `add_subclass_edge`); output `"hist"`: one answer per query in order, and
+`"hist_edges"`: the edges of the final graph. -/
 open Lean PynguinModel.Types
 
 partial def parseTy (j : Json) : Except String Ty :=
@@ -37,7 +44,13 @@ partial def tyJson : Ty → Json
   | .tuple u as => Json.mkObj [("t", Json.arr #[toJson u, Json.arr (as.map tyJson).toArray])]
   | .union is => Json.mkObj [("u", Json.arr (is.map tyJson).toArray)]
 
+structure Hist where
+  nodes : List Nat
+  ops : List (String × Nat × Nat)
+  deriving FromJson
+
 structure Case where
+  hist : Option Hist
   classes : List (Nat × List Nat)
   extra : List (Nat × Nat)
   tower : Option (List Nat)
@@ -50,6 +63,29 @@ structure Case where
 def optJ : Option Nat → Json
   | some n => toJson n
   | none => Json.null
+
+def ansJ : PynguinModel.Generators.Answer → Json
+  | .b v => toJson v
+  | .d v => optJ v
+  | .cs v => toJson v
+
+/-- the history part: memoised run from the empty graph over the registered classes -/
+def runHist (c : Case) (pool : Array Ty) (h : Hist) : Except String (List (String × Json)) := do
+  let get (i : Nat) : Except String Ty :=
+    match pool[i]? with | some t => pure t | none => throw s!"pool index {i}"
+  let ops ← h.ops.mapM fun (op, i, j) => do
+    match op with
+    | "edge" => pure (PynguinModel.Generators.Op.edge i j)
+    | "sub" => pure (.ask (.sub (← get i) (← get j)))
+    | "maybe" => pure (.ask (.maybe (← get i) (← get j)))
+    | "dist" => pure (.ask (.dist (← get i) (← get j)))
+    | "subclass" => pure (.ask (.subclass i j))
+    | "subclasses" => pure (.ask (.subclasses i))
+    | "superclasses" => pure (.ask (.superclasses i))
+    | _ => throw s!"unknown history op {op}"
+  let g0 : Graph := { nodes := h.nodes, edges := [], generics := c.generics }
+  let r := PynguinModel.Generators.run c.anyD false ⟨g0, []⟩ ops
+  pure [("hist", Json.arr (r.2.map ansJ).toArray), ("hist_edges", toJson r.1.g.edges)]
 
 def runCase (c : Case) : Except String Json := do
   let g0 := ofClassTable c.classes c.generics
@@ -73,8 +109,11 @@ def runCase (c : Case) : Except String Json := do
     | "wf" => pure (toJson ((← get i).wf g))
     | "fixup" => pure (tyJson (fixup g (← get i)))
     | _ => throw s!"unknown op {op}"
-  pure (Json.mkObj [("edges", toJson g.edges), ("nodes", toJson (allNodes g)),
-                    ("convex", toJson (genericsConvexB g)), ("out", Json.arr outs.toArray)])
+  let hist ← match c.hist with
+    | none => pure []
+    | some h => runHist c pool h
+  pure (Json.mkObj ([("edges", toJson g.edges), ("nodes", toJson (allNodes g)),
+                    ("convex", toJson (genericsConvexB g)), ("out", Json.arr outs.toArray)] ++ hist))
 
 partial def loop (h : IO.FS.Stream) : IO Unit := do
   let line ← h.getLine
